@@ -831,7 +831,8 @@ def explore(ctx):
         depth = ctx.pick(3, 4)
         aset = ctx.pick("narrow", "narrow")
         # quick: the chord-only and the tuplet-value track (many notes, nothing structurally new) go one level less deep
-        depths = {i: (depth - 1 if (ctx.quick and i in (1, 3, 6, 7, 8, 9, 10, 11, 12, 13, 14, 15, 16, 17)) else depth) for i in range(len(ZOO))}
+        # thorough: the tracks added for particular regressions (list positions 10 and up) go one level less deep than the first ten
+        depths = {i: (depth - 1 if ((ctx.quick and i in (1, 3, 6, 7, 8, 9)) or i >= 10) else depth) for i in range(len(ZOO))}
         ctx.bound("history_depth", {str(i): d for i, d in depths.items()})
         ctx.bound("history_actions", {"set": aset, "targets": {str(i): action_targets(i, aset) for i in range(len(ZOO))}, "ops": bfs_ops()})
         for i in range(len(ZOO)):
@@ -839,7 +840,7 @@ def explore(ctx):
         if not ctx.quick:
             ctx.bound("history_wide_depth", 3)
             for i in range(len(ZOO)):
-                if len(ZOO[i]) > 1:            # on a one-bar track the wide set is the narrow one
+                if len(ZOO[i]) > 1 and i < 10:            # on a one-bar track the wide set is the narrow one
                     ctx.bfs("history", HistorySpec(i, "wide"), 3, label="history track %d wide" % i)
     if not ctx.only:
         ctx.guard("note transpositions verified", ctx.counter("note_transpositions_ok"), 30000)
